@@ -13,7 +13,7 @@ def prepare(case):
         spec = position_spec(d["position"], d["tkind"])
     else:
         names = d["names"]
-        assert names and all(e[0] in names and e[2] in names and e[1] in KINDS for e in d["edges"]) and all(x in names for x in d.get("roots") or []) and d.get("roots")
+        assert names and all(e[0] in names and e[2] in names and e[1] in KINDS + KINDS_EXTRA for e in d["edges"]) and all(x in names for x in d.get("roots") or []) and d.get("roots")
         assert d.get("mode", "client-mod") in ("client-mod", "server-mod") and not has_allof_cycle(names, [tuple(e) for e in d["edges"]])
         spec = graph_spec(d["names"], [tuple(e) for e in d["edges"]], d.get("roots"))
     assert d.get("scope", "default") in ("default", "all", "only", "exclude")
@@ -39,9 +39,11 @@ def cases(ctx):
     n = 150 if ctx.quick else 1500
     for _ in range(n):
         names = ["A", "B", "C", "D", "E"][: r.randint(2, 5)]
+        if r.random() < 0.5:
+            names = names[:-2] + r.sample(ODD_NAMES, 2) if len(names) > 2 else r.sample(ODD_NAMES, 2)
         edges = []
         for _ in range(r.randint(1, 6)):
-            e = [r.choice(names), r.choice(KINDS), r.choice(names)]
+            e = [r.choice(names), r.choice(KINDS + KINDS_EXTRA), r.choice(names)]
             if e not in edges:
                 edges.append(e)
         if has_allof_cycle(names, [tuple(e) for e in edges]):
